@@ -107,6 +107,11 @@ func SexpToJson(exp Sexp) string {
 		return e.jsonArrayHelper()
 	case *SexpSymbol:
 		return `"` + e.name + `"`
+	case *SexpSentinel:
+		if e == SexpNull {
+			return "null"
+		}
+		return exp.SexpString(nil)
 	default:
 		return exp.SexpString(nil)
 	}
